@@ -1,12 +1,18 @@
 import CnlProofs.Wide
+import CnlProofs.Scaled
 import CnlModel.WideCmp
 /-!
 # CnlProofs.WideCmp — comparison of multi-limb `wide_integer`s of different widths
 
 `widenCtor_spec`: the converting constructor of the wider `uintwide_t` keeps the value (reduced to the
 destination format, which only matters when a negative value goes to an unsigned format).
-`cmpMixed_converts`: the repaired comparison is the comparison of the two values converted to the wider
-format; `cmpMixed_spec`: for equal signedness that is the comparison of the values themselves.
+`cmpMixedOrig2_converts`: after the first repair the comparison is the comparison of the two values converted to
+the wider format; `cmpMixedOrig2_of_fit`: by value whenever both values fit that format.
+`negTestMulti_spec`, `lhsNegative_spec`, `rhsNegative_spec`: the sign test of the second repair and its two outcomes;
+`cmpMixed_by_value`: the repaired comparison of two multi-limb formats of different widths is the comparison of the
+values, whatever the signedness; `cmpMixed_spec`: equal signedness, any two limb counts;
+`wideCmp_multi`, `wideCmp_builtin_multi`, `wideCmp_multi_builtin`: the same through the storage rule, for every
+pair of `wide_integer` types of which at least one has multi-limb storage.
 Lean core only.
 -/
 namespace Cnl.Wide.CmpMixed
@@ -140,17 +146,17 @@ theorem convTo_spec {f W : Fmt} {a : Limbs} (hw : 1 ≤ f.w) (hwe : f.w = W.w) (
 /-- the format both operands are converted to -/
 def wider (f g : Fmt) : Fmt := if f.N < g.N then g else f
 
-/-- the repaired comparison: both values converted to the wider format, compared as integers -/
-theorem cmpMixed_converts {f g : Fmt} {a b : Limbs} (op : CmpOp) (hw : 1 ≤ f.w) (hwe : f.w = g.w)
+/-- after the first repair: both values converted to the wider format, compared as integers -/
+theorem cmpMixedOrig2_converts {f g : Fmt} {a b : Limbs} (op : CmpOp) (hw : 1 ≤ f.w) (hwe : f.w = g.w)
     (hfn : 1 ≤ f.n) (hgn : 1 ≤ g.n) (hne : f.N ≠ g.N) (ha : Val f a) (hb : Val g b) :
-    cmpMixed f g op a b
+    cmpMixedOrig2 f g op a b
       = .ok (specCmp op (wrapTwos (wider f g).N (wider f g).signed (toInt f a))
                         (wrapTwos (wider f g).N (wider f g).signed (toInt g b))) := by
   have hgw : 1 ≤ g.w := by omega
   have hwf : cmpWellFormed f g = true := by
     unfold cmpWellFormed
     simp [hwe, hne]
-  unfold cmpMixed wider
+  unfold cmpMixedOrig2 wider
   simp only [hwf, Bool.not_true, Bool.false_eq_true, if_false, hne]
   by_cases hlt : f.N < g.N
   · simp only [hlt, if_true]
@@ -163,65 +169,189 @@ theorem cmpMixed_converts {f g : Fmt} {a b : Limbs} (op : CmpOp) (hw : 1 ≤ f.w
     obtain ⟨vb, eb⟩ := convTo_spec (W := f) hgw hwe.symm hgn (Or.inr hgt) hb
     rw [Arith.cmpOp_spec op hw hfn va vb, ea, eb]
 
-/-- equal signedness (the instantiations that exist for every pair of widths): by value -/
-theorem cmpMixed_spec {f g : Fmt} {a b : Limbs} (op : CmpOp) (hw : 1 ≤ f.w) (hwe : f.w = g.w)
-    (hs : f.signed = g.signed) (hfn : 1 ≤ f.n) (hgn : 1 ≤ g.n) (ha : Val f a) (hb : Val g b) :
+theorem wider_N_pos {f g : Fmt} (hf : 1 ≤ f.N) (hg : 1 ≤ g.N) : 1 ≤ (wider f g).N := by
+  unfold wider; split <;> assumption
+
+/-- the conversion to the wider format compares by value whenever both values fit that format -/
+theorem cmpMixedOrig2_of_fit {f g : Fmt} {a b : Limbs} (op : CmpOp) (hw : 1 ≤ f.w) (hwe : f.w = g.w)
+    (hfn : 1 ≤ f.n) (hgn : 1 ≤ g.n) (hne : f.N ≠ g.N) (ha : Val f a) (hb : Val g b)
+    (hfa : InRange (wider f g).N (wider f g).signed (toInt f a))
+    (hfb : InRange (wider f g).N (wider f g).signed (toInt g b)) :
+    cmpMixedOrig2 f g op a b = .ok (specCmp op (toInt f a) (toInt g b)) := by
+  have hN := wider_N_pos (Bridge.N_pos hw hfn) (Bridge.N_pos (f := g) (by omega) hgn)
+  rw [cmpMixedOrig2_converts op hw hwe hfn hgn hne ha hb, wrapTwos_of_inRange hN hfa, wrapTwos_of_inRange hN hfb]
+
+/-- a value of the narrower format fits the wider one unless it is negative and the wider format unsigned -/
+theorem fits_wider {n W : Fmt} {x : Int} (hN : 1 ≤ n.N) (hlt : n.N < W.N) (hx : InRange n.N n.signed x)
+    (h0 : n.signed = true → W.signed = false → 0 ≤ x) : InRange W.N W.signed x := by
+  cases hn : n.signed <;> cases hW : W.signed <;> rw [hn] at hx
+  · exact inRange_mono hN (Nat.le_of_lt hlt) hx
+  · exact inRange_unsigned_to_signed hlt hx
+  · exact inRange_nonneg_to_unsigned hN (Nat.le_of_lt hlt) hx (h0 hn hW)
+  · exact inRange_mono hN (Nat.le_of_lt hlt) hx
+
+/-! ## the second repair: a negative operand of the signed type decides -/
+
+/-- `uintwide_t(0)`: a value of the format, reading 0 (whatever the limb width) -/
+theorem fromBuiltin_zero {f : Fmt} (hn : 1 ≤ f.n) :
+    Val f (fromBuiltin f i32 0) ∧ toNat f.w (fromBuiltin f i32 0) = 0 := by
+  have e : fromBuiltin f i32 0 = fromUnsigned f 32 0 := by
+    simp [fromBuiltin, fromSigned, i32]
+  rw [e]; unfold fromUnsigned
+  by_cases h : 32 ≤ f.w
+  · simp only [h, if_true]
+    obtain ⟨m, hm⟩ : ∃ m, f.n = m + 1 := ⟨f.n - 1, by omega⟩
+    have e : (0 :: zeros (f.n - 1)).take f.n = 0 :: zeros m := by
+      rw [hm]; simp [zeros]
+    rw [e]
+    refine ⟨⟨Shift.WF_cons.mpr ⟨Nat.two_pow_pos _, Shift.WF_zeros _ _⟩, by simp [zeros, hm]⟩, ?_⟩
+    simp [toNat, Shift.toNat_zeros]
+  · simp only [h, if_false]
+    have hcle : Nat.min f.n ((32 + f.w - 1) / f.w) ≤ f.n := Nat.min_le_left _ _
+    generalize Nat.min f.n ((32 + f.w - 1) / f.w) = cnt at *
+    refine ⟨⟨Shift.WF_append.mpr ⟨Basic.ofNat_WF _ _ _, Shift.WF_zeros _ _⟩, ?_⟩, ?_⟩
+    · rw [List.length_append, Basic.ofNat_length, Conv.length_zeros']; omega
+    · rw [Shift.toNat_append, Shift.toNat_zeros, Basic.toNat_ofNat]; simp
+
+/-- `to_rep(x) < 0` on a multi-limb representation tests the sign of the value -/
+theorem negTestMulti_spec {f : Fmt} {a : Limbs} (hw : 1 ≤ f.w) (hn : 1 ≤ f.n) (ha : Val f a) :
+    negTestMulti f a = decide (toInt f a < 0) := by
+  obtain ⟨hz, ez⟩ := fromBuiltin_zero (f := f) hn
+  have e0 : toInt f (fromBuiltin f i32 0) = 0 := by
+    unfold toInt
+    rw [ez]
+    have : ¬ (0 ≥ 2^(f.N - 1)) := by have := Nat.two_pow_pos (f.N - 1); omega
+    simp [this]
+  unfold negTestMulti
+  rw [Arith.cmpOp_spec .lt hw hn ha hz, e0]
+  rfl
+
+/-- `Operator()(-1, 0)` is the relation between any negative and any non-negative number -/
+theorem lhsNegative_spec (op : CmpOp) {x y : Int} (hx : x < 0) (hy : 0 ≤ y) : lhsNegative op = specCmp op x y := by
+  have e : ∀ op, lhsNegative op = specCmp op (-1) 0 := by intro op; cases op <;> decide
+  rw [e]
+  cases op <;> simp only [specCmp] <;> rw [Bool.eq_iff_iff] <;> simp only [decide_eq_true_eq] <;> omega
+
+/-- `Operator()(0, -1)` is the relation between any non-negative and any negative number -/
+theorem rhsNegative_spec (op : CmpOp) {x y : Int} (hx : 0 ≤ x) (hy : y < 0) : rhsNegative op = specCmp op x y := by
+  have e : ∀ op, rhsNegative op = specCmp op 0 (-1) := by intro op; cases op <;> decide
+  rw [e]
+  cases op <;> simp only [specCmp] <;> rw [Bool.eq_iff_iff] <;> simp only [decide_eq_true_eq] <;> omega
+
+theorem cmpMixed_unfold {f g : Fmt} {a b : Limbs} (op : CmpOp) (hwf : cmpWellFormed f g = true) :
+    cmpMixed f g op a b =
+      if (f.signed && !g.signed && negTestMulti f a) = true then .ok (lhsNegative op)
+      else if (!f.signed && g.signed && negTestMulti g b) = true then .ok (rhsNegative op)
+      else cmpMixedOrig2 f g op a b := by
+  unfold cmpMixed cmpMixedOrig2
+  simp only [hwf, Bool.not_true, Bool.false_eq_true, if_false]
+
+/-- equal signedness: the sign test is not instantiated -/
+theorem cmpMixed_same_sign {f g : Fmt} {a b : Limbs} (op : CmpOp) (hs : f.signed = g.signed) :
+    cmpMixed f g op a b = cmpMixedOrig2 f g op a b := by
+  unfold cmpMixed cmpMixedOrig2
+  cases hg : g.signed <;> simp [hs, hg]
+
+/-- **the repaired comparison of two multi-limb formats of different widths is by value**, whatever the two
+signednesses and whichever operand is the wider one -/
+theorem cmpMixed_by_value {f g : Fmt} {a b : Limbs} (op : CmpOp) (hw : 1 ≤ f.w) (hwe : f.w = g.w)
+    (hfn : 1 ≤ f.n) (hgn : 1 ≤ g.n) (hne : f.N ≠ g.N) (ha : Val f a) (hb : Val g b) :
     cmpMixed f g op a b = .ok (specCmp op (toInt f a) (toInt g b)) := by
   have hgw : 1 ≤ g.w := by omega
   have hNf := Bridge.N_pos hw hfn
   have hNg := Bridge.N_pos hgw hgn
   have ra := Bridge.toInt_range hNf ha
   have rb := Bridge.toInt_range hNg hb
+  have hwf : cmpWellFormed f g = true := by
+    unfold cmpWellFormed
+    simp [hwe, hne]
+  rw [cmpMixed_unfold op hwf, negTestMulti_spec hw hfn ha, negTestMulti_spec hgw hgn hb]
+  by_cases c1 : (f.signed && !g.signed && decide (toInt f a < 0)) = true
+  · rw [if_pos c1]
+    simp only [Bool.and_eq_true, Bool.not_eq_true', decide_eq_true_eq] at c1
+    obtain ⟨⟨_, hgs⟩, hneg⟩ := c1
+    rw [hgs] at rb
+    unfold InRange at rb
+    simp only [Bool.false_eq_true, if_false] at rb
+    rw [lhsNegative_spec op hneg rb.1]
+  · rw [if_neg c1]
+    by_cases c2 : (!f.signed && g.signed && decide (toInt g b < 0)) = true
+    · rw [if_pos c2]
+      simp only [Bool.and_eq_true, Bool.not_eq_true', decide_eq_true_eq] at c2
+      obtain ⟨⟨hfs, _⟩, hneg⟩ := c2
+      rw [hfs] at ra
+      unfold InRange at ra
+      simp only [Bool.false_eq_true, if_false] at ra
+      rw [rhsNegative_spec op ra.1 hneg]
+    · rw [if_neg c2]
+      have ha0 : f.signed = true → g.signed = false → 0 ≤ toInt f a := by
+        intro h1 h2
+        simp only [h1, h2, Bool.not_false, Bool.and_self, Bool.true_and, decide_eq_true_eq] at c1
+        omega
+      have hb0 : g.signed = true → f.signed = false → 0 ≤ toInt g b := by
+        intro h1 h2
+        simp only [h1, h2, Bool.not_false, Bool.and_self, Bool.true_and, decide_eq_true_eq] at c2
+        omega
+      apply cmpMixedOrig2_of_fit op hw hwe hfn hgn hne ha hb
+      · unfold wider
+        by_cases hlt : f.N < g.N
+        · simp only [hlt, if_true]; exact fits_wider hNf hlt ra ha0
+        · simp only [hlt, if_false]; exact ra
+      · unfold wider
+        by_cases hlt : f.N < g.N
+        · simp only [hlt, if_true]; exact rb
+        · simp only [hlt, if_false]; exact fits_wider hNg (by omega) rb hb0
+
+/-- equal signedness (the instantiations that exist for every pair of widths, equal widths included): by value -/
+theorem cmpMixed_spec {f g : Fmt} {a b : Limbs} (op : CmpOp) (hw : 1 ≤ f.w) (hwe : f.w = g.w)
+    (hs : f.signed = g.signed) (hfn : 1 ≤ f.n) (hgn : 1 ≤ g.n) (ha : Val f a) (hb : Val g b) :
+    cmpMixed f g op a b = .ok (specCmp op (toInt f a) (toInt g b)) := by
   by_cases hne : f.N = g.N
   · have hn := n_eq_of_N_eq hw hwe hne
     have hfg : f = g := by
       cases f; cases g; simp only [Fmt.mk.injEq]; exact ⟨hwe, hn, hs⟩
     subst hfg
     have hwf : cmpWellFormed f f = true := by unfold cmpWellFormed; simp
-    unfold cmpMixed
+    rw [cmpMixed_same_sign op rfl]
+    unfold cmpMixedOrig2
     simp only [hwf, Bool.not_true, Bool.false_eq_true, if_false, if_true]
     rw [Arith.cmpOp_spec op hw hfn ha hb]
-  · rw [cmpMixed_converts op hw hwe hfn hgn hne ha hb]
-    unfold wider
-    by_cases hlt : f.N < g.N
-    · simp only [hlt, if_true]
-      rw [wrapTwos_of_inRange hNg rb, wrapTwos_of_inRange hNg (hs ▸ inRange_mono hNf (Nat.le_of_lt hlt) ra)]
-    · have hgt : g.N < f.N := by omega
-      simp only [hlt, if_false]
-      rw [wrapTwos_of_inRange hNf ra, wrapTwos_of_inRange hNf (hs ▸ inRange_mono hNg (Nat.le_of_lt hgt) rb)]
+  · exact cmpMixed_by_value op hw hwe hfn hgn hne ha hb
 
-/-- different signedness and different widths (these instantiations compile too): by value whenever the wider
-format is the signed one, or the operand of the narrower, signed format is non-negative -/
+/-- different signedness and different widths (these instantiations compile too): by value, with the wider
+operand on either side -/
 theorem cmpMixed_mixed_signedness {f g : Fmt} {a b : Limbs} (op : CmpOp) (hw : 1 ≤ f.w) (hwe : f.w = g.w)
-    (hfn : 1 ≤ f.n) (hgn : 1 ≤ g.n) (hlt : f.N < g.N) (hs : f.signed ≠ g.signed) (ha : Val f a) (hb : Val g b)
-    (hv : g.signed = true ∨ 0 ≤ toInt f a) :
+    (hfn : 1 ≤ f.n) (hgn : 1 ≤ g.n) (hlt : f.N < g.N) (ha : Val f a) (hb : Val g b) :
     cmpMixed f g op a b = .ok (specCmp op (toInt f a) (toInt g b))
-    ∧ cmpMixed g f op b a = .ok (specCmp op (toInt g b) (toInt f a)) := by
+    ∧ cmpMixed g f op b a = .ok (specCmp op (toInt g b) (toInt f a)) :=
+  ⟨cmpMixed_by_value op hw hwe hfn hgn (by omega) ha hb,
+   cmpMixed_by_value op (by omega) hwe.symm hgn hfn (by omega) hb ha⟩
+
+/-- after the first repair only: by value when the wider format is the signed one or the operand of the narrower
+format is non-negative -/
+theorem cmpMixedOrig2_mixed_signedness {f g : Fmt} {a b : Limbs} (op : CmpOp) (hw : 1 ≤ f.w) (hwe : f.w = g.w)
+    (hfn : 1 ≤ f.n) (hgn : 1 ≤ g.n) (hlt : f.N < g.N) (ha : Val f a) (hb : Val g b)
+    (hv : g.signed = true ∨ 0 ≤ toInt f a) :
+    cmpMixedOrig2 f g op a b = .ok (specCmp op (toInt f a) (toInt g b))
+    ∧ cmpMixedOrig2 g f op b a = .ok (specCmp op (toInt g b) (toInt f a)) := by
   have hgw : 1 ≤ g.w := by omega
   have hNf := Bridge.N_pos hw hfn
   have hNg := Bridge.N_pos hgw hgn
   have ra := Bridge.toInt_range hNf ha
   have rb := Bridge.toInt_range hNg hb
-  have hfit : InRange g.N g.signed (toInt f a) := by
-    cases hgs : g.signed
-    · have hfs : f.signed = true := by cases h : f.signed <;> simp_all
-      rw [hfs] at ra
+  have hfit : InRange g.N g.signed (toInt f a) :=
+    fits_wider hNf hlt ra (fun _ h2 => by
       rcases hv with h | h
-      · rw [hgs] at h; cases h
-      · exact inRange_nonneg_to_unsigned hNf (Nat.le_of_lt hlt) ra h
-    · have hfs : f.signed = false := by cases h : f.signed <;> simp_all
-      rw [hfs] at ra
-      exact inRange_unsigned_to_signed hlt ra
+      · rw [h2] at h; cases h
+      · exact h)
   refine ⟨?_, ?_⟩
-  · rw [cmpMixed_converts op hw hwe hfn hgn (by omega) ha hb]
-    unfold wider
-    simp only [hlt, if_true]
-    rw [wrapTwos_of_inRange hNg rb, wrapTwos_of_inRange hNg hfit]
-  · rw [cmpMixed_converts op hgw hwe.symm hgn hfn (by omega) hb ha]
-    unfold wider
-    have : ¬ g.N < f.N := by omega
-    simp only [this, if_false]
-    rw [wrapTwos_of_inRange hNg rb, wrapTwos_of_inRange hNg hfit]
+  · apply cmpMixedOrig2_of_fit op hw hwe hfn hgn (by omega) ha hb <;> unfold wider <;> simp only [hlt, if_true]
+    · exact hfit
+    · exact rb
+  · have hnlt : ¬ g.N < f.N := by omega
+    apply cmpMixedOrig2_of_fit op hgw hwe.symm hgn hfn (by omega) hb ha <;> unfold wider <;> simp only [hnlt, if_false]
+    · exact rb
+    · exact hfit
 
 /-- the limbs of the two's-complement pattern read back as the value -/
 theorem encode_spec {f : Fmt} (v : Int) (hN : 1 ≤ f.N) :
@@ -259,9 +389,74 @@ theorem storage_multi {d : Nat} {t : IntTy} {f : Fmt} (ht : 1 ≤ t.bits) (h : s
   · simp only [hd, if_false] at h
     cases h
 
-/-- `wide_integer<dl, nl> OP wide_integer<dr, nr>`, both multi-limb, on values of the storage ranges -/
+/-- a multi-limb format is wider than every built-in integer -/
+theorem storage_multi_wide {d : Nat} {t : IntTy} {f : Fmt} (ht : 1 ≤ t.bits) (h : storage d t = .multi f) :
+    129 ≤ f.N := by
+  unfold storage at h
+  by_cases hd : d > maxDigits t
+  · simp only [hd, if_true] at h
+    injection h with h
+    subst h
+    show 129 ≤ t.bits * ((d + (if t.signed = true then 1 else 0) + t.bits - 1) / t.bits)
+    have := Conv.ceil_mul_ge (w := t.bits) (b := d + (if t.signed = true then 1 else 0)) ht
+    unfold maxDigits at hd
+    split at hd <;> simp_all <;> omega
+  · simp only [hd, if_false] at h
+    cases h
+
+/-- what `storage` says about a single-word representation -/
+theorem storage_builtin {d : Nat} {t s : IntTy} (h : storage d t = .builtin s) :
+    8 ≤ s.bits ∧ s.bits ≤ 128 ∧ s.signed = t.signed := by
+  unfold storage at h
+  by_cases hd : d > maxDigits t
+  · simp only [hd, if_true] at h
+    cases h
+  · simp only [hd, if_false] at h
+    injection h with h
+    subst h
+    unfold setDigits
+    refine ⟨?_, ?_, rfl⟩ <;> dsimp only <;> (repeat' split) <;> omega
+
+/-- the range of a built-in type in the terms of the wide formats -/
+theorem inRange_of_intTy {t : IntTy} {v : Int} (_ht : 1 ≤ t.bits) (h : t.InRange v) : InRange t.bits t.signed v := by
+  unfold IntTy.InRange IntTy.max IntTy.lowest at h
+  unfold InRange
+  cases hs : t.signed <;> simp only [hs, Bool.false_eq_true, if_false, if_true] at h ⊢ <;> omega
+
+/-- a value of a built-in type fits a strictly wider format unless it is negative and the format unsigned -/
+theorem builtin_fits {t : IntTy} {W : Fmt} {x : Int} (ht : 1 ≤ t.bits) (hlt : t.bits < W.N) (hx : t.InRange x)
+    (h0 : t.signed = true → W.signed = false → 0 ≤ x) : InRange W.N W.signed x := by
+  have hx' := inRange_of_intTy ht hx
+  cases hn : t.signed <;> cases hW : W.signed <;> rw [hn] at hx'
+  · exact inRange_mono ht (Nat.le_of_lt hlt) hx'
+  · exact inRange_unsigned_to_signed hlt hx'
+  · exact inRange_nonneg_to_unsigned ht (Nat.le_of_lt hlt) hx' (h0 hn hW)
+  · exact inRange_mono ht (Nat.le_of_lt hlt) hx'
+
+/-- `to_rep(x) < 0` on a signed single-word representation tests the sign of the value -/
+theorem negTestBuiltin_spec {t : IntTy} {v : Int} (ht : 1 ≤ t.bits) (hs : t.signed = true) (hv : t.InRange v) :
+    cCmp .lt (t, v) (i32, 0) = decide (v < 0) := by
+  have hsg : (usualArith t i32).signed = true :=
+    ScaledP.usualArith_signed (promote_signed_of_signed hs) (promote_signed_of_signed rfl)
+  rw [ScaledP.cCmp_value .lt rfl (ScaledP.usualArith_bits_pos t i32)
+    (ScaledP.inRange_common_of_left ht hv (Or.inl hsg))
+    (ScaledP.inRange_common_of_right (L := t) (R := i32) (by decide) (by decide) (Or.inl hsg))]
+  rfl
+
+/-- the constructor from a built-in integer keeps the value (reduced to the format) -/
+theorem fromBuiltin_spec {f : Fmt} {t : IntTy} {v : Int} (hw : 1 ≤ f.w) (hn : 1 ≤ f.n) (ht : 1 ≤ t.bits)
+    (hb : t.bits ≤ f.N) (hv : t.InRange v) :
+    Val f (fromBuiltin f t v) ∧ toInt f (fromBuiltin f t v) = wrapTwos f.N f.signed v := by
+  obtain ⟨h1, h2, h3⟩ := Conv.fromBuiltin_toNat hw hn ht hb hv
+  refine ⟨⟨h2, h3⟩, ?_⟩
+  apply Bridge.toInt_of_cong (Bridge.N_pos hw hn) ⟨h2, h3⟩
+  rw [h1, Int.toNat_of_nonneg (Int.emod_nonneg _ (by have : (0:Int) < 2^f.N := Int.pow_pos (by decide); omega))]
+  exact Int.emod_emod_of_dvd _ (Int.dvd_refl _)
+
+/-- `wide_integer<dl, nl> OP wide_integer<dr, nr>`, both multi-limb (same limb width; of different storage widths
+or of the same signedness — the pairs that compile), on values of the storage ranges -/
 theorem wideCmp_multi {dl dr : Nat} {nl nr : IntTy} {f g : Fmt} (op : CmpOp) {l r : Int}
-    (hb : 1 ≤ nl.bits) (hbe : nl.bits = nr.bits) (hs : nl.signed = nr.signed)
+    (hb : 1 ≤ nl.bits) (hbe : nl.bits = nr.bits) (hs : nl.signed = nr.signed ∨ f.N ≠ g.N)
     (hf : storage dl nl = .multi f) (hg : storage dr nr = .multi g)
     (hl : InRange f.N f.signed l) (hr : InRange g.N g.signed r) :
     wideCmp dl nl dr nr op l r = .ok (specCmp op l r) := by
@@ -273,9 +468,100 @@ theorem wideCmp_multi {dl dr : Nat} {nl nr : IntTy} {f g : Fmt} (op : CmpOp) {l 
   have hNg := Bridge.N_pos hgw gn
   obtain ⟨va, ea⟩ := encode_spec (f := f) l hNf
   obtain ⟨vb, eb⟩ := encode_spec (f := g) r hNg
-  unfold wideCmp wideCmpWith
+  unfold wideCmp
   simp only [hf, hg]
-  rw [cmpMixed_spec op hw (by omega) (by rw [fs, gs, hs]) fn gn va vb, ea, eb,
-    wrapTwos_of_inRange hNf hl, wrapTwos_of_inRange hNg hr]
+  rcases hs with hs | hne
+  · rw [cmpMixed_spec op hw (by omega) (by rw [fs, gs, hs]) fn gn va vb, ea, eb,
+      wrapTwos_of_inRange hNf hl, wrapTwos_of_inRange hNg hr]
+  · rw [cmpMixed_by_value op hw (by omega) fn gn hne va vb, ea, eb,
+      wrapTwos_of_inRange hNf hl, wrapTwos_of_inRange hNg hr]
+
+/-- a single-word `wide_integer` on the left, a multi-limb one on the right, any narrowest types -/
+theorem wideCmp_builtin_multi {dl dr : Nat} {nl nr : IntTy} {s : IntTy} {g : Fmt} (op : CmpOp) {l r : Int}
+    (hbr : 1 ≤ nr.bits) (hsb : storage dl nl = .builtin s) (hg : storage dr nr = .multi g)
+    (hl : s.InRange l) (hr : InRange g.N g.signed r) :
+    wideCmp dl nl dr nr op l r = .ok (specCmp op l r) := by
+  obtain ⟨gw, _, gn⟩ := storage_multi hbr hg
+  have hN129 := storage_multi_wide hbr hg
+  obtain ⟨s8, s128, _⟩ := storage_builtin hsb
+  have hsb1 : 1 ≤ s.bits := by omega
+  have hgw : 1 ≤ g.w := by omega
+  have hNg := Bridge.N_pos hgw gn
+  obtain ⟨vb, eb⟩ := encode_spec (f := g) r hNg
+  rw [wrapTwos_of_inRange hNg hr] at eb
+  obtain ⟨va, ea⟩ := fromBuiltin_spec (f := g) hgw gn hsb1 (by omega) hl
+  have hconv : ∀ (h0 : s.signed = true → g.signed = false → 0 ≤ l),
+      cmpOp g op (fromBuiltin g s l) (encode g r) = specCmp op l r := by
+    intro h0
+    rw [Arith.cmpOp_spec op hgw gn va vb, ea, eb, wrapTwos_of_inRange hNg (builtin_fits hsb1 (by omega) hl h0)]
+  unfold wideCmp
+  simp only [hsb, hg]
+  rw [negTestMulti_spec hgw gn vb, eb]
+  cases hss : s.signed <;> cases hgs : g.signed
+  · simp only [Bool.false_and, Bool.and_false, Bool.false_eq_true, if_false, Bool.not_false]
+    rw [hconv (fun h => by rw [hss] at h; cases h)]
+  · simp only [Bool.false_and, Bool.false_eq_true, if_false, Bool.not_false, Bool.true_and]
+    have hl0 : 0 ≤ l := by
+      have := hl.1; unfold IntTy.lowest at this; simpa [hss] using this
+    by_cases hneg : r < 0
+    · simp only [hneg, decide_true, if_true]
+      rw [rhsNegative_spec op hl0 hneg]
+    · simp only [hneg, decide_false, Bool.false_eq_true, if_false]
+      rw [hconv (fun h => by rw [hss] at h; cases h)]
+  · simp only [Bool.true_and, Bool.not_false, Bool.not_true, Bool.false_and, Bool.false_eq_true, if_false]
+    rw [negTestBuiltin_spec hsb1 hss hl]
+    have hr0 : 0 ≤ r := by
+      rw [hgs] at hr; unfold InRange at hr; simp only [Bool.false_eq_true, if_false] at hr; exact hr.1
+    by_cases hneg : l < 0
+    · simp only [hneg, decide_true, if_true]
+      rw [lhsNegative_spec op hneg hr0]
+    · simp only [hneg, decide_false, Bool.false_eq_true, if_false]
+      rw [hconv (fun _ _ => by omega)]
+  · simp only [Bool.not_true, Bool.false_and, Bool.and_false, Bool.false_eq_true, if_false]
+    rw [hconv (fun _ h => by rw [hgs] at h; cases h)]
+
+/-- a multi-limb `wide_integer` on the left, a single-word one on the right -/
+theorem wideCmp_multi_builtin {dl dr : Nat} {nl nr : IntTy} {f : Fmt} {t : IntTy} (op : CmpOp) {l r : Int}
+    (hbl : 1 ≤ nl.bits) (hf : storage dl nl = .multi f) (htb : storage dr nr = .builtin t)
+    (hl : InRange f.N f.signed l) (hr : t.InRange r) :
+    wideCmp dl nl dr nr op l r = .ok (specCmp op l r) := by
+  obtain ⟨fw, _, fn⟩ := storage_multi hbl hf
+  have hN129 := storage_multi_wide hbl hf
+  obtain ⟨t8, t128, _⟩ := storage_builtin htb
+  have htb1 : 1 ≤ t.bits := by omega
+  have hw : 1 ≤ f.w := by omega
+  have hNf := Bridge.N_pos hw fn
+  obtain ⟨va, ea⟩ := encode_spec (f := f) l hNf
+  rw [wrapTwos_of_inRange hNf hl] at ea
+  obtain ⟨vb, eb⟩ := fromBuiltin_spec (f := f) hw fn htb1 (by omega) hr
+  have hconv : ∀ (h0 : t.signed = true → f.signed = false → 0 ≤ r),
+      cmpOp f op (encode f l) (fromBuiltin f t r) = specCmp op l r := by
+    intro h0
+    rw [Arith.cmpOp_spec op hw fn va vb, ea, eb, wrapTwos_of_inRange hNf (builtin_fits htb1 (by omega) hr h0)]
+  unfold wideCmp
+  simp only [hf, htb]
+  rw [negTestMulti_spec hw fn va, ea]
+  cases hfs : f.signed <;> cases hts : t.signed
+  · simp only [Bool.false_and, Bool.and_false, Bool.false_eq_true, if_false, Bool.not_false]
+    rw [hconv (fun h => by rw [hts] at h; cases h)]
+  · simp only [Bool.false_and, Bool.false_eq_true, if_false, Bool.not_false, Bool.true_and]
+    rw [negTestBuiltin_spec htb1 hts hr]
+    have hl0 : 0 ≤ l := by
+      rw [hfs] at hl; unfold InRange at hl; simp only [Bool.false_eq_true, if_false] at hl; exact hl.1
+    by_cases hneg : r < 0
+    · simp only [hneg, decide_true, if_true]
+      rw [rhsNegative_spec op hl0 hneg]
+    · simp only [hneg, decide_false, Bool.false_eq_true, if_false]
+      rw [hconv (fun _ _ => by omega)]
+  · simp only [Bool.true_and, Bool.not_false, Bool.not_true, Bool.false_and, Bool.false_eq_true, if_false]
+    have hr0 : 0 ≤ r := by
+      have := hr.1; unfold IntTy.lowest at this; simpa [hts] using this
+    by_cases hneg : l < 0
+    · simp only [hneg, decide_true, if_true]
+      rw [lhsNegative_spec op hneg hr0]
+    · simp only [hneg, decide_false, Bool.false_eq_true, if_false]
+      rw [hconv (fun h => by rw [hts] at h; cases h)]
+  · simp only [Bool.not_true, Bool.false_and, Bool.and_false, Bool.false_eq_true, if_false]
+    rw [hconv (fun _ h => by rw [hfs] at h; cases h)]
 
 end Cnl.Wide.CmpMixed
